@@ -9,8 +9,7 @@ VERUS_FLAGS = ['--no-lifetime']
 VERIFY_MODULES = ['portfolio::summary']
 
 
-def build(ctx):
-    p = bk.parts(ctx)
+def summary_src(ctx):
     sm = Src(ctx, 'portfolio/summary.rs').cut_after('// MARK: Tests').cut_tests().standard()
     sm.replace("use tracing::debug;\n", "", 'R3', required=False)
     sm.replace("use crate::tracing::debug;\n", "", 'R3', required=False)
@@ -33,10 +32,22 @@ def build(ctx):
     sm.replace("deltas[..=summary_range.latest_delta_in_summary_range_idx]\n                .iter()\n                .collect()",
                "hole_collect_refs(&deltas[..=summary_range.latest_delta_in_summary_range_idx])", 'H')
     sm.replace("(summary_period_txs, warnings.into_iter().collect())", "(summary_period_txs, hole_set_to_vec(warnings))", 'H')
+    # make_aggregate_summary_txs
+    sm.replace("let mut sorted_secs: Vec<&String> = deltas_by_sec.keys().collect();", "let mut sorted_secs: Vec<&String> = hole_sec_keys(deltas_by_sec);", 'H')
+    sm.replace("let deltas = &deltas_by_sec[*sec];", "let deltas = deltas_by_sec.get(*sec).unwrap();", 'R15')
+    sm.replace("all_warnings.get_mut(&warning).unwrap().push((**sec).clone());",
+               "let __w = all_warnings.get_mut(&warning).unwrap();\n            __w.push((**sec).clone());", 'R22')
+    sm.replace("all_summary_txs.extend(summary_txs.into_iter());", "hole_extend_txs(&mut all_summary_txs, summary_txs);", 'H')
     sm.only(['type Warning', 'struct SummaryRanges', 'const GET_SUMMARY_RANGE_DELTA_INDICIES_WARN',
              'fn get_summary_range_delta_indicies', 'const SHARE_BALANCE_ZERO_WARNING', 'fn make_simple_summary_txs',
-             'fn make_annual_gains_summary_txs', 'fn make_summary_txs'],
+             'fn make_annual_gains_summary_txs', 'fn make_summary_txs', 'struct CollectedSummaryData', 'fn make_aggregate_summary_txs'],
             why='make_summary_txs / annual-gains variant / aggregate use extend, iter_mut and HashSet chains not brought into the dialect')
+    return sm
+
+
+def build(ctx):
+    p = bk.parts(ctx)
+    sm = summary_src(ctx)
     stubs = open(os.path.join(os.path.dirname(os.path.dirname(os.path.abspath(__file__))), 'shim', 'util_stubs.rs')).read()
     return (shim('base', 'std') + "verus! {\n"
             + bk.assemble(p, extra_util=stubs, extra_portfolio=mod('summary', sm.text()))
